@@ -1,3 +1,4 @@
+@classmethod
 def spec(cls, mean, variance):
     mean, variance = _astensorsfloat(mean, variance)
     meansq = mean ** 2
